@@ -95,6 +95,8 @@ pub enum Cmd {
     List,
     #[command(subcommand)]
     Service(Inner),
+    #[command(flatten)]
+    More(Small),
     #[command(external_subcommand)]
     Ext(Vec<String>),
 }
@@ -435,6 +437,11 @@ impl Mirror for Tree {
                 v.push(("cmd.service.start.port".into(), format!("{port:?}")));
             }
             Cmd::Service(Inner::Stop) => v.push(("cmd.variant".into(), "service.stop".into())),
+            Cmd::More(Small::Ping { count }) => {
+                v.push(("cmd.variant".into(), "more.ping".into()));
+                v.push(("cmd.more.ping.count".into(), format!("{count:?}")));
+            }
+            Cmd::More(Small::Pong) => v.push(("cmd.variant".into(), "more.pong".into())),
             Cmd::Ext(x) => {
                 v.push(("cmd.variant".into(), "ext".into()));
                 v.push(("cmd.ext".into(), format!("{x:?}")));
@@ -447,7 +454,17 @@ impl Mirror for Tree {
     }
     fn from_matches(m: &ArgMatches) -> Result<Self, String> {
         let (name, sm) = m.subcommand().ok_or("no subcommand")?;
+        // a name that reached the parser as an EXTERNAL subcommand (after `--`) is external even if it spells
+        // a declared variant
+        let is_external = sm.try_contains_id("").unwrap_or(false);
         let cmd = match name {
+            _ if is_external => {
+                let mut v = vec![name.to_string()];
+                v.extend(many::<std::ffi::OsString>(sm, "")?.unwrap_or_default().into_iter().map(|o| o.to_string_lossy().to_string()));
+                Cmd::Ext(v)
+            }
+            "ping" => Cmd::More(Small::Ping { count: one::<u8>(sm, "count")? }),
+            "pong" => Cmd::More(Small::Pong),
             "add" => Cmd::Add {
                 name: one::<String>(sm, "name")?.ok_or("name missing")?,
                 force: one::<bool>(sm, "force")?.unwrap_or(false),
@@ -474,12 +491,15 @@ impl Mirror for Tree {
 }
 
 fn gen_tree_val(rng: &mut Rng) -> Tree {
-    let cmd = match rng.below(6) {
+    let cmd = match rng.below(9) {
         0 | 1 => Cmd::Add { name: pick_str(rng), force: rng.coin(), tag: (0..rng.usize(3)).map(|_| pick_str(rng)).collect() },
         2 => Cmd::Remove(RemoveArgs { target: pick_str(rng), recursive: rng.coin() }),
         3 => Cmd::List,
         4 => Cmd::Service(if rng.coin() { Inner::Start { port: if rng.coin() { Some(rng.below(65536) as u16) } else { None } } } else { Inner::Stop }),
-        _ => Cmd::Ext(vec!["external".into(), "x".into(), "--y".into()]),
+        5 | 6 => Cmd::More(if rng.coin() { Small::Ping { count: if rng.coin() { Some(rng.below(256) as u8) } else { None } } } else { Small::Pong }),
+        7 => Cmd::Ext(vec!["external".into(), "x".into(), "--y".into()]),
+        // an external subcommand may spell a declared variant (it is then written after `--`)
+        _ => Cmd::Ext((*rng.pick(&[&["list", "now"][..], &["list"][..], &["pong", "x"][..], &["add", "--name=z"][..], &["rm"][..]])).iter().map(|s| s.to_string()).collect()),
     };
     Tree { glob: if rng.coin() { Some(pick_str(rng)) } else { None }, common: Common { level: if rng.coin() { Some(rng.below(256) as u8) } else { None }, dry: rng.coin() }, cmd }
 }
@@ -547,9 +567,24 @@ fn tree_tokens(v: &Tree, top: bool, sub: bool) -> (Vec<String>, Vec<(String, Str
                 a.push("service".into());
                 a.push("stop".into());
             }
+            Cmd::More(Small::Ping { count }) => {
+                named.push(("cmd.variant".to_string(), "more.ping".into()));
+                a.push("ping".into());
+                if let Some(c) = count {
+                    a.push(format!("--count={c}"));
+                    named.push(("cmd.more.ping.count".to_string(), format!("{count:?}")));
+                }
+            }
+            Cmd::More(Small::Pong) => {
+                named.push(("cmd.variant".to_string(), "more.pong".into()));
+                a.push("pong".into());
+            }
             Cmd::Ext(x) => {
                 named.push(("cmd.variant".to_string(), "ext".into()));
                 named.push(("cmd.ext".to_string(), format!("{x:?}")));
+                if x.first().map(|w| ["add", "remove", "rm", "list", "service", "ping", "pong", "help"].contains(&w.as_str())).unwrap_or(false) {
+                    a.push("--".into());
+                }
                 a.extend(x.iter().cloned());
             }
         }
